@@ -25,7 +25,8 @@ use tu_verif::run::Run;
 pub const ALPHA: [&str; 6] = ["a", "b", "c", " ", "ä", "\n"];
 /// second string set: every kind of White_Space as word separator (run on the hand tables and the
 /// smallest exhaustive tables only)
-pub const WS_ALPHA: [&str; 7] = ["a", "b", " ", "\u{a0}", "\t", "\u{3000}", "\u{2028}"];
+/// (U+0000 is the lowest byte / token id: a value an implementation might use as a sentinel)
+pub const WS_ALPHA: [&str; 8] = ["a", "b", " ", "\u{a0}", "\t", "\u{3000}", "\u{2028}", "\u{0}"];
 pub const WS_MAX_LEN: usize = 4;
 /// number of special tokens of `SpecialConfig::default()` (<unk>, <bos>, <eos>, <pad>)
 pub const NUM_SPECIAL: usize = 4;
@@ -111,6 +112,8 @@ pub fn hand_tables() -> Vec<Table> {
         tb(&[b" a", b" ab", b" abc", b"  ", b"   a"]),
         tb(&[b"  ", b"  a", b" a", b"\n ", b"\n a", b" \n"]),
         tb(&[b"a ", b"b ", b" a", b" b", b" ab", b" ba"]),
+        // the lowest byte inside tokens
+        tb(&[&[0u8, b'a'], &[b'a', 0u8], &[0u8, 0u8], &[0u8, b'a', 0u8]]),
         // UTF-8: 'ä' = C3 A4; tokens that split or straddle the character
         tb(&[&[a, u], &[a, u, b'a'], &[b'a', a, u], &[a, u, a, u]]),
         tb(&[&[u, b'a'], &[a, u], &[a, u, b'a']]),
